@@ -193,34 +193,35 @@ def run(prog, rep):
         csp = cr.param_names()[0]
 
         def s2(st, b, i, stmt, bad=bad, seen_ok=seen_ok):
-            facts, created = st
+            facts, created, src = st
             for c in calls(stmt):
                 if c.get("callee") == clean and created:
                     if guards.lookup(facts, "%s->%s" % (csp, flag)) != 1:
                         bad.append(line(c))
                     else:
                         seen_ok[0] += 1
+                if c.get("callee") == opener:
+                    # which open produced the handle variable's current value
+                    src = "excl" if any(c is c2 for (_b, _i, c2) in excl) else "other"
             if stmt["k"] == "ret" and created and cv(stmt.get("e")) == 1:
                 if guards.lookup(facts, "%s->%s" % (csp, flag)) != 1:
                     bad.append(line(stmt))
                 else:
                     seen_ok[0] += 1
-            return [(guards.transfer(facts, stmt, stable=("p_error_get_last_system()",)), created)]
+            return [(guards.transfer(facts, stmt, stable=("p_error_get_last_system()",)), created, src)]
 
         def e2(st, b, to, on):
-            facts, created = st
+            facts, created, src = st
             f2 = guards.edge_assume(facts, b, on)
             if f2 is None:
                 return None
-            if not created:
-                # the exclusive create succeeded: the handle variable/field assigned from the O_CREAT|O_EXCL open is valid
-                for (bb, ii, c) in excl:
-                    tgt = excl_target.get(id(c))
-                    if tgt and b.id == bb.id:
-                        inv = -1 if opener == "shm_open" else 0
-                        if any(fk == tgt and fop == "!=" and fv == inv for (fk, fop, fv) in f2):
-                            created = True
-            return (f2, created)
+            if not created and src == "excl":
+                # the exclusive create succeeded: the handle variable/field last assigned from the O_CREAT|O_EXCL open is valid
+                inv = -1 if opener == "shm_open" else 0
+                for tgt in set(excl_target.values()):
+                    if tgt and any(fk == tgt and fop == "!=" and fv == inv for (fk, fop, fv) in f2):
+                        created = True
+            return (f2, created, src)
         excl = [(b, i, c) for (b, i, c) in cr.calls() if c.get("callee") == opener and (cv(c["args"][1]) or 0) & 0o300 == 0o300]
         excl_target = {}
         for b, i, s in cr.stmts():
@@ -229,7 +230,7 @@ def run(prog, rep):
                     for (bb, ii, c) in excl:
                         if any(x is c for x in calls(n["r"])):
                             excl_target[id(c)] = ap(n["l"])
-        Flow(cr, [(guards.EMPTY, False)], s2, e2).run()
+        Flow(cr, [(guards.EMPTY, False, None)], s2, e2).run()
         rep.ob("C20.5", cr, "owner-early", not bad and seen_ok[0] > 0,
                "after a successful exclusive create every exit (success or unwinding) sees %s already set, so the name is removed again when a later step fails" % flag
                if not bad and seen_ok[0] else
